@@ -657,7 +657,8 @@ directive @tag(name: String!) repeatable on FIELD | FIELD_DEFINITION | OBJECT
 "#;
 
 /// (label, kind, text): kind "sdl" = parse_and_validate as a schema (+ introspection when valid),
-/// "query" = parse_and_validate against the shared schema, "introspect" = partial_execute on the shared schema.
+/// "query" = parse_and_validate against the shared schema, "introspect" = partial_execute on the shared schema,
+/// "execute" = resolvers::Execution::execute_sync against the shared schema with a schema-driven resolver.
 fn work_items(seed: u64) -> Vec<(String, &'static str, String)> {
     let mut v: Vec<(String, &'static str, String)> = vec![
         ("shared-sdl".into(), "sdl", SHARED_SDL.into()),
@@ -674,6 +675,12 @@ fn work_items(seed: u64) -> Vec<(String, &'static str, String)> {
         ("introspect-type".into(), "introspect", "{ u: __type(name: \"User\") { name kind fields { name type { kind name ofType { name } } } interfaces { name } } k: __type(name: \"Kind\") { enumValues(includeDeprecated: true) { name isDeprecated } } n: __type(name: \"Node\") { possibleTypes { name } } __typename }".into()),
         ("introspect-directives".into(), "introspect", "{ __schema { directives { name locations isRepeatable args { name defaultValue } } queryType { name } mutationType { name } subscriptionType { name } } }".into()),
     ];
+    v.extend([
+        ("exec-1".to_string(), "execute", "#vars {\"id\": \"7\", \"n\": 2}\nquery Q($id: ID!, $n: Int = 3) { node(id: $id) { __typename id ... on User { name friends(first: $n) { id name kind } pet { nick owner { id } } } } nodes(first: $n) { id } viewer { friends { id } } }".to_string()),
+        ("exec-2".to_string(), "execute", "{ search(text: \"x\", kinds: [B]) { __typename ... on Named { name } ... on Pet { nick } } me { id } scalar float a: viewer { kind } b: viewer { kind name } }".to_string()),
+        ("exec-3".to_string(), "execute", "#vars {\"on\": true}\nmutation M($on: Boolean!) { setFlag(on: $on) rename(id: \"1\", name: \"n\") { id name @skip(if: $on) } } query Other { viewer { id } __schema { queryType { name } types { name kind } } t: __type(name: \"Filter\") { inputFields { name defaultValue } } }".to_string()),
+        ("exec-4-bad-variables".to_string(), "execute", "#vars {\"f\": {\"kind\": \"Z\", \"min\": \"x\"}}\nquery($f: Filter, $req: Int!) { nodes(filter: $f, first: $req) { id } }".to_string()),
+    ]);
     // seed-determined generated schemas (valid by construction) and a mutated one
     for k in 0..4u64 {
         let bytes = gen_case(seed, "C31", 900, k, 500);
@@ -686,6 +693,106 @@ fn work_items(seed: u64) -> Vec<(String, &'static str, String)> {
         v.push((format!("generated-sdl-{}", k), "sdl", text));
     }
     v
+}
+
+// A schema-driven resolver for the `execute` items: every value is a pure function of the field's
+// declared type and name, so the response is a pure function of (schema, document, variables).
+struct GenObj<'s> {
+    ty: &'s str,
+    schema: &'s Valid<Schema>,
+}
+
+impl apollo_compiler::resolvers::ObjectValue for GenObj<'_> {
+    fn type_name(&self) -> &str {
+        self.ty
+    }
+    fn resolve_field<'a>(&'a self, info: &'a apollo_compiler::resolvers::ResolveInfo<'a>) -> Result<apollo_compiler::resolvers::ResolvedValue<'a>, apollo_compiler::resolvers::FieldError> {
+        // arguments are read (argument coercion ran against the shared schema)
+        let nargs = info.arguments().len();
+        if info.field_name() == "me" {
+            return Err(apollo_compiler::resolvers::FieldError { message: format!("no `me` here ({} arguments)", nargs) });
+        }
+        Ok(gen_value(self.schema, &info.field_definition().ty, info.field_name(), nargs))
+    }
+}
+
+fn gen_value<'a>(schema: &'a Valid<Schema>, ty: &'a apollo_compiler::schema::Type, field: &'a str, nargs: usize) -> apollo_compiler::resolvers::ResolvedValue<'a> {
+    use apollo_compiler::resolvers::ResolvedValue as RV;
+    use apollo_compiler::schema::{ExtendedType as ET, Type};
+    use serde_json_bytes::Value as J;
+    match ty {
+        Type::List(inner) | Type::NonNullList(inner) => RV::list((0..2 + nargs.min(1)).map(|_| gen_value(schema, inner, field, nargs)).collect::<Vec<_>>()),
+        Type::Named(n) | Type::NonNullNamed(n) => match schema.types.get(n) {
+            Some(ET::Scalar(_)) => match n.as_str() {
+                "Int" => RV::leaf(J::from(7 + nargs as i64)),
+                "Float" => RV::leaf(J::from(1.5f64)),
+                "Boolean" => RV::leaf(J::from(true)),
+                "String" => RV::leaf(J::from(format!("s-{}", field))),
+                "ID" => RV::leaf(J::from(format!("id-{}", field))),
+                _ => RV::leaf(J::from("2020-01-01".to_string())),
+            },
+            Some(ET::Enum(e)) => match e.values.keys().next() {
+                Some(v) => RV::leaf(J::from(v.as_str().to_string())),
+                None => RV::null(),
+            },
+            Some(ET::Object(_)) => RV::object(GenObj { ty: n.as_str(), schema }),
+            Some(ET::Union(u)) => match u.members.iter().next() {
+                Some(m) => RV::object(GenObj { ty: m.name.as_str(), schema }),
+                None => RV::null(),
+            },
+            Some(ET::Interface(_)) => {
+                // the first object type, in schema order, that declares the interface
+                let imp = schema.types.iter().find_map(|(tn, t)| match t {
+                    ET::Object(o) if o.implements_interfaces.iter().any(|i| i.name == *n) => Some(tn.as_str()),
+                    _ => None,
+                });
+                match imp {
+                    Some(t) => RV::object(GenObj { ty: t, schema }),
+                    None => RV::null(),
+                }
+            }
+            _ => RV::null(),
+        },
+    }
+}
+
+/// Execute `text` (optionally `#vars <json>` on its first line) against the shared schema.
+fn execute(schema: &Valid<Schema>, text: &str) -> String {
+    let (vars, query) = match text.strip_prefix("#vars ") {
+        Some(rest) => {
+            let (v, q) = rest.split_once('\n').unwrap_or((rest, ""));
+            (v.to_string(), q.to_string())
+        }
+        None => ("{}".to_string(), text.to_string()),
+    };
+    let vars: serde_json_bytes::Value = serde_json::from_str(&vars).unwrap_or(serde_json_bytes::Value::Null);
+    let empty = serde_json_bytes::Map::new();
+    let vars = vars.as_object().unwrap_or(&empty);
+    match ExecutableDocument::parse_and_validate(schema, &query, "exec.graphql") {
+        Err(e) => format!("INVALID DOCUMENT:\n{}", e.errors),
+        Ok(doc) => {
+            let mut out = String::new();
+            // every operation of the document, by name, introspection on and off
+            let names: Vec<Option<String>> = if doc.operations.anonymous.is_some() { vec![None] } else { doc.operations.named.keys().map(|k| Some(k.to_string())).collect() };
+            for name in names {
+                for intro in [false, true] {
+                    let root_ty = doc.operations.get(name.as_deref()).ok().and_then(|op| schema.root_operation(op.operation_type)).map(|n| n.to_string()).unwrap_or_else(|| "Query".into());
+                    let root = GenObj { ty: &root_ty, schema };
+                    let r = match apollo_compiler::resolvers::Execution::new(schema, &doc).operation_name(name.as_deref()) {
+                        Ok(ex) => ex.raw_variable_values(vars).enable_schema_introspection(intro).execute_sync(&root),
+                        Err(e) => Err(e),
+                    };
+                    out.push_str(&format!("-- operation {:?} introspection {}\n", name, intro));
+                    match r {
+                        Ok(resp) => out.push_str(&serde_json::to_string(&resp).unwrap_or_else(|e| format!("<json error {}>", e))),
+                        Err(e) => out.push_str(&format!("REQUEST ERROR: {}", e.message())),
+                    }
+                    out.push('\n');
+                }
+            }
+            out
+        }
+    }
 }
 
 fn run_item(kind: &str, text: &str, shared: Option<&Valid<Schema>>) -> String {
@@ -710,6 +817,10 @@ fn run_item(kind: &str, text: &str, shared: Option<&Valid<Schema>>) -> String {
                     diag_parts("exec", &e.errors, &mut parts);
                 }
             }
+        }
+        "execute" => {
+            let s = shared.expect("shared schema");
+            parts.push(("response".into(), execute(s, text)));
         }
         _ => {
             let s = shared.expect("shared schema");
